@@ -1,4 +1,5 @@
 import Robust.Irc.Proofs.PermAll
+import Robust.Irc.Proofs.PrivHistB
 /-!
 # C01 — replica determinism, the congruence theorem
 
@@ -182,5 +183,243 @@ theorem C01_history_states (st st' st1 : St) (es : List Entry) (hG : GInv st) (h
 
 /-- the initial state satisfies the hypotheses -/
 theorem C01_init : GInv ({} : St) ∧ HoldsNodup ({} : St) := ⟨GInv_init, List.nodup_nil⟩
+
+/-! ## non-vacuity
+
+Every theorem above that has hypotheses is instantiated on concrete data on which all its hypotheses hold together.
+
+* `Ex.stR` is the state reached from the initial state by the history `Ex.es0` (`Ex.run0`, by evaluation): a Config
+  entry, a services link (session 2) with the pseudo-client `ChanServ`, the registered clients alice (chanop of `#c`
+  and `#d`) and bob, `ChanServ` on `#c` as well, and a connection (16) that has not chosen a nickname; `GInv` from
+  `run_preserves` (`Ex.ginvR`).
+* `Ex.stH` is `stR` with two SVSHOLDs (so that `HoldsNodup` says something): the line `SVSHOLD nick 60 :reason` itself
+  goes through `String.toNat?`, which the kernel does not evaluate, and `svsholds` is not mentioned by `GInv`
+  (`Ex.GInv_svsholds`).
+* `Ex.stH'` is the other replica: *every* map of `stH` in reverse order, the inner ones (a session's channels, a
+  channel's members) included; `stH ≠ stH'` as terms, `stH ≈ stH'` (`Ex.equivH`, using `C01_perm_equiv`). -/
+namespace Ex
+local instance (cmd : String) (n : Nat) : Decidable (ParamsOK cmd n) := by unfold ParamsOK; exact inferInstance
+
+/-- `Conforming` as a Boolean, the lines of services links included -/
+def confB (st : St) (e : Entry) : Bool :=
+  !(e.type == 2) || (match AMap.get st.sessions e.session with
+    | some s => !s.server || (match parseMessage e.data with
+        | some m => m.pfx.isSome && decide (ParamsOK (toUpper m.command) m.params.length)
+        | none => true)
+    | none => true)
+
+theorem conf_of_B {st : St} {e : Entry} (h : confB st e = true) : Conforming st e := by
+  intro ht s m hs hsv hm
+  unfold confB at h
+  simpa [ht, hs, hsv, hm] using h
+
+/-- `WfHistory` as a Boolean -/
+def wfB (st : St) : List Entry → Bool
+  | [] => true
+  | e :: es => entryOkB st e && confB st e && (match applyEntry st e with
+    | .ok (st', _) => wfB st' es
+    | _ => true)
+
+theorem wf_of_B : ∀ {es : List Entry} {st : St}, wfB st es = true → WfHistory st es
+  | [], _, _ => trivial
+  | e :: es, st, h => by
+    unfold wfB at h
+    simp only [Bool.and_eq_true] at h
+    refine ⟨entryOk_of_B h.1.1, conf_of_B h.1.2, fun st' out hap => ?_⟩
+    have h2 := h.2
+    rw [hap] at h2
+    exact wf_of_B h2
+
+theorem runOk_of_isSome {st : St} {es : List Entry} (h : (runOk st es).isSome = true) :
+    runOk st es = some ((runOk st es).getD {}) := by
+  cases h' : runOk st es with
+  | none => rw [h'] at h; cases h
+  | some x => rfl
+
+def entryOk (r : Res (St × List Out)) : Bool :=
+  match r with
+  | .ok _ => true
+  | _ => false
+def entrySt (r : Res (St × List Out)) : St :=
+  match r with
+  | .ok p => p.1
+  | _ => {}
+def entryOut (r : Res (St × List Out)) : List Out :=
+  match r with
+  | .ok p => p.2
+  | _ => []
+theorem eq_of_entryOk {r : Res (St × List Out)} (h : entryOk r = true) : r = .ok (entrySt r, entryOut r) := by
+  cases r with
+  | ok p => rfl
+  | panic x => cases h
+  | declined x => cases h
+def declinedWhy {α : Type} (r : Res α) : Option String :=
+  match r with
+  | .declined w => some w
+  | _ => none
+theorem declined_of {α : Type} {r : Res α} {w : String} (h : declinedWhy r = some w) : r = .declined w := by
+  cases r with
+  | declined x => simp only [declinedWhy, Option.some.injEq] at h; rw [h]
+  | ok p => cases h
+  | panic x => cases h
+/-- the recipient lists of a handler that returns -/
+def rcpts (r : Res Ctx) : Option (List (List Nat)) :=
+  match r with
+  | .ok c => some (c.out.map Out.rcpt)
+  | _ => none
+
+def mk (ty id : Nat) (sess : Id) (data : String) : Entry :=
+  { type := ty, id := id, session := sess, data := data, unixNano := 0, cmid := id, rev := 0, remoteAddr := "", cfg := none }
+def cfg : Config := { services := ["sekrit"], maxChannels := 2, maxSessions := 6 }
+def eCfg : Entry :=
+  { type := 6, id := 1, session := ⟨0, 0⟩, data := "", unixNano := 0, cmid := 0, rev := 1, remoteAddr := "", cfg := some cfg }
+/-- the configuration; a services link connects and introduces `ChanServ`; alice registers and creates `#c`; bob
+registers and joins; `ChanServ` joins; alice creates `#d`; a further connection is opened -/
+def es0 : List Entry := [
+  eCfg,
+  mk 0 2 ⟨0, 0⟩ "auth-s", mk 2 3 ⟨2, 0⟩ "PASS services=sekrit", mk 2 4 ⟨2, 0⟩ "SERVER services.x 1",
+  mk 2 5 ⟨2, 0⟩ ":services.x NICK ChanServ 1 1 services localhost services.x 0 :Channel Services",
+  mk 0 6 ⟨0, 0⟩ "auth-a", mk 2 7 ⟨6, 0⟩ "NICK alice", mk 2 8 ⟨6, 0⟩ "USER a 0 * :Alice", mk 2 9 ⟨6, 0⟩ "JOIN #c",
+  mk 0 10 ⟨0, 0⟩ "auth-b", mk 2 11 ⟨10, 0⟩ "NICK bob", mk 2 12 ⟨10, 0⟩ "USER b 0 * :Bob", mk 2 13 ⟨10, 0⟩ "JOIN #c",
+  mk 2 14 ⟨2, 0⟩ ":ChanServ JOIN #c", mk 2 15 ⟨6, 0⟩ "JOIN #d",
+  mk 0 16 ⟨0, 0⟩ "auth-d"]
+/-- the pseudo-client's id: the link's id and the FNV hash of the nick -/
+def csId : Id := ⟨2, 893999252474884769⟩
+def linkS : Session := { id := ⟨2, 0⟩, auth := "auth-s", lastActivity := 14, lastNonPing := 14, created := 2, svid := "0", pass := "services=sekrit", server := true, lastClientMessageId := 14, ircPrefix := ⟨"services.x", "", ""⟩ }
+def chanServS : Session := { id := csId, nick := "ChanServ", username := "services", realname := "Channel Services", channels := ["#c"], lastActivity := 5, lastNonPing := 5, created := 5, svid := "0", ircPrefix := ⟨"ChanServ", "services", "robust/0x2"⟩ }
+def aliceS : Session := { id := ⟨6, 0⟩, auth := "auth-a", loggedIn := true, nick := "alice", username := "a", realname := "Alice", channels := ["#c", "#d"], lastActivity := 15, lastNonPing := 15, created := 6, svid := "0", lastClientMessageId := 15, ircPrefix := ⟨"alice", "a", "robust/0x6"⟩ }
+def bobS : Session := { id := ⟨10, 0⟩, auth := "auth-b", loggedIn := true, nick := "bob", username := "b", realname := "Bob", channels := ["#c"], lastActivity := 13, lastNonPing := 13, created := 10, svid := "0", lastClientMessageId := 13, ircPrefix := ⟨"bob", "b", "robust/0xa"⟩ }
+def daveS : Session := { id := ⟨16, 0⟩, auth := "auth-d", lastActivity := 16, lastNonPing := 16, created := 16, svid := "0" }
+/-- the state reached from the initial state by `es0` (`run0` below) -/
+def stR : St :=
+  { sessions := [(⟨2, 0⟩, linkS), (csId, chanServS), (⟨6, 0⟩, aliceS), (⟨10, 0⟩, bobS), (⟨16, 0⟩, daveS)]
+    nicks := [("chanserv", csId), ("alice", ⟨6, 0⟩), ("bob", ⟨10, 0⟩)]
+    channels := [("#c", { name := "#c", nicks := [("alice", { chanop := true }), ("bob", {}), ("chanserv", {})], modes := ['n', 't'] }),
+                 ("#d", { name := "#d", nicks := [("alice", { chanop := true })], modes := ['n', 't'] })]
+    serverSessions := [2]
+    lastProcessed := ⟨6, 0⟩
+    config := { cfg with revision := 1 } }
+theorem run0 : runOk {} es0 = some stR := by decide +kernel
+theorem wf0 : wfB {} es0 = true := by decide +kernel
+/-- `stR` is reachable, hence satisfies the full invariant -/
+theorem ginvR : GInv stR := run_preserves GInv_init (wf_of_B wf0) (runOk_some run0)
+
+theorem GInv_svsholds {st : St} (x : AMap String SvsHold) (h : GInv st) : GInv { st with svsholds := x } :=
+  ⟨(Inv_svsholds _ x).2 h.inv, h.linv, h.ninv, h.vinv⟩
+/-- `stR` after `SVSHOLD mallory 60 :held` and `SVSHOLD eve 0 :gone` of the services link -/
+def stH : St := { stR with svsholds := [("mallory", ⟨15, 60000000000, "held"⟩), ("eve", ⟨15, 0, "gone"⟩)] }
+theorem ginvH : GInv stH := GInv_svsholds _ ginvR
+theorem holdsH : HoldsNodup stH := by unfold HoldsNodup; decide +kernel
+
+theorem all2_map {α : Type} {R : α → α → Prop} {f : α → α} (hf : ∀ a, R a (f a)) : ∀ l : List α, All2 R l (l.map f)
+  | [] => .nil
+  | a :: l => .cons (hf a) (all2_map hf l)
+
+def revS (s : Session) : Session := { s with channels := s.channels.reverse, invitedTo := s.invitedTo.reverse }
+def revC (c : Channel) : Channel := { c with nicks := c.nicks.reverse }
+/-- the inner maps reversed: every session's channel list, every channel's member map -/
+def stI : St :=
+  { stH with sessions := stH.sessions.map (fun e => (e.1, revS e.2)), channels := stH.channels.map (fun e => (e.1, revC e.2)) }
+theorem equivI : stH ≈ stI :=
+  ⟨PermR.of_all2 (all2_map (f := fun e => (e.1, revS e.2))
+      (fun _ => ⟨rfl, ⟨rfl, (List.reverse_perm _).symm, (List.reverse_perm _).symm⟩⟩) stH.sessions),
+   List.Perm.refl _,
+   PermR.of_all2 (all2_map (f := fun e => (e.1, revC e.2)) (fun _ => ⟨rfl, ⟨rfl, (List.reverse_perm _).symm⟩⟩) stH.channels),
+   List.Perm.refl _, List.Perm.refl _, rfl, rfl, rfl⟩
+/-- … and the five outer maps reversed as well: the other replica -/
+def stH' : St :=
+  { stI with sessions := stI.sessions.reverse, nicks := stI.nicks.reverse, channels := stI.channels.reverse,
+             svsholds := stI.svsholds.reverse, serverSessions := stI.serverSessions.reverse }
+/-- `C01_perm_equiv` on the five reversed maps (composed with the reversal of the inner maps) -/
+theorem equivH : stH ≈ stH' :=
+  C01_equiv_equivalence.trans equivI
+    (C01_perm_equiv stI _ _ _ _ _ (List.reverse_perm _).symm (List.reverse_perm _).symm (List.reverse_perm _).symm
+      (List.reverse_perm _).symm (List.reverse_perm _).symm)
+
+def cH : Ctx := { st := stH, msgid := 20 }
+def cH' : Ctx := { st := stH', msgid := 20 }
+theorem ceqH : CEq cH cH' := ⟨St.Equiv.toStEq equivH ginvH.inv.toWInvCore holdsH, rfl, rfl, .nil⟩
+/-- bob to `#c` -/
+def mPriv : IrcMsg := ⟨none, "PRIVMSG", ["#c", "hello"]⟩
+/-- `:ChanServ QUIT :bye` of the services link: the early-exit search for the owner of the nick -/
+def mSQuit : IrcMsg := ⟨some ⟨"ChanServ", "", ""⟩, "QUIT", ["bye"]⟩
+def ePriv : Entry := mk 2 21 ⟨10, 0⟩ "PRIVMSG #c :hello"
+/-- a services line that the model declines to follow -/
+def eDecl : Entry := mk 2 21 ⟨2, 0⟩ ":services.x SVSHOLD eve soon"
+def stP : St := entrySt (applyEntry stH ePriv)
+def outP : List Out := entryOut (applyEntry stH ePriv)
+theorem applyP : applyEntry stH ePriv = .ok (stP, outP) := eq_of_entryOk (by decide +kernel)
+/-- bob talks; the new connection tries the held nick `mallory` (refused, the text comes from the hold) and then `eve`
+(the hold has expired and is removed); alice renames herself (re-keying `#c` and `#d`); bob leaves `#c`; `ChanServ`
+talks to bob; alice's session is deleted (which deletes `#d`) -/
+def es1 : List Entry := [
+  ePriv, mk 2 22 ⟨16, 0⟩ "NICK mallory", mk 2 23 ⟨16, 0⟩ "NICK eve", mk 2 24 ⟨6, 0⟩ "NICK alicia", mk 2 25 ⟨10, 0⟩ "PART #c",
+  mk 2 26 ⟨2, 0⟩ ":ChanServ PRIVMSG bob :registered", mk 1 27 ⟨6, 0⟩ "gone"]
+def stEnd : St := (runOk stH es1).getD {}
+theorem run1 : runOk stH es1 = some stEnd := runOk_of_isSome (by decide +kernel)
+theorem wf1 : wfB stH es1 = true := by decide +kernel
+attribute [irreducible] stP outP stEnd
+end Ex
+open Ex
+
+/-- the two replicas are different terms … -/
+example : stH ≠ stH' := by decide +kernel
+/-- … `C01_equiv_get_sessions`: alice's session is the same up to the order of her channel list -/
+example : ORel SessEq (AMap.get stH.sessions ⟨6, 0⟩) (AMap.get stH'.sessions ⟨6, 0⟩) :=
+  C01_equiv_get_sessions ginvH.inv holdsH equivH ⟨6, 0⟩
+example : (AMap.get stH.sessions ⟨6, 0⟩).map (·.channels) = some ["#c", "#d"] ∧
+    (AMap.get stH'.sessions ⟨6, 0⟩).map (·.channels) = some ["#d", "#c"] := by decide +kernel
+/-- `C01_equiv_get_nicks` on an indexed nick and on a held one -/
+example : AMap.get stH'.nicks "bob" = AMap.get stH.nicks "bob" ∧ AMap.get stH'.svsholds "bob" = AMap.get stH.svsholds "bob" :=
+  C01_equiv_get_nicks ginvH.inv holdsH equivH "bob"
+example : AMap.get stH'.svsholds "mallory" = AMap.get stH.svsholds "mallory" :=
+  (C01_equiv_get_nicks ginvH.inv holdsH equivH "mallory").2
+example : AMap.get stH'.nicks "bob" = some ⟨10, 0⟩ ∧ (AMap.get stH'.svsholds "mallory").map (·.reason) = some "held" := by
+  decide +kernel
+/-- `C01_inv_transfer`, `C01_ginv_transfer` -/
+example : Inv stH' ∧ HoldsNodup stH' := C01_inv_transfer ginvH.inv holdsH equivH
+example : GInv stH' := C01_ginv_transfer ginvH holdsH equivH
+
+/-- `C01_handlers_congr` on a handler without side condition: bob's PRIVMSG to `#c` returns on both replicas, the
+recipients (alice, the link of `ChanServ`) come in the two orders -/
+example : RRel CEq (cmdPrivmsg cH ⟨10, 0⟩ mPriv) (cmdPrivmsg cH' ⟨10, 0⟩ mPriv) :=
+  C01_handlers_congr "cmdPrivmsg" cmdPrivmsg rfl cH cH' ⟨10, 0⟩ mPriv (UniqNick.of_inv ginvH.inv) (fun _ h => by cases h) ceqH
+example : rcpts (cmdPrivmsg cH ⟨10, 0⟩ mPriv) = some [[6, 2]] ∧ rcpts (cmdPrivmsg cH' ⟨10, 0⟩ mPriv) = some [[2, 6]] := by
+  decide +kernel
+/-- … and on one of the two handlers that need `UniqNick` and `MsgPfxOK` (a present prefix with a non-empty name):
+the services `QUIT` of `ChanServ` finds the same owner in both iteration orders of the sessions -/
+example : RRel CEq (cmdServerQuit cH ⟨2, 0⟩ mSQuit) (cmdServerQuit cH' ⟨2, 0⟩ mSQuit) :=
+  C01_handlers_congr "cmdServerQuit" cmdServerQuit rfl cH cH' ⟨2, 0⟩ mSQuit (UniqNick.of_inv ginvH.inv)
+    (fun p h => by cases h; decide) ceqH
+example : rcpts (cmdServerQuit cH ⟨2, 0⟩ mSQuit) = some [[6, 10, 2]] ∧
+    rcpts (cmdServerQuit cH' ⟨2, 0⟩ mSQuit) = some [[2, 10, 6]] := by decide +kernel
+
+/-- `C01_replicas_agree`, `C01_replicas_agree_inv`, `C01_replicas_agree_ok` on bob's committed PRIVMSG: it applies
+(`Ex.applyP`), and the one output message is addressed to `[6, 2]` on one replica and to `[2, 6]` on the other -/
+example : RRel EntryResEquiv (applyEntry stH ePriv) (applyEntry stH' ePriv) :=
+  C01_replicas_agree stH stH' ePriv ginvH holdsH equivH
+example : RRel EntryResEquiv (applyEntry stH ePriv) (applyEntry stH' ePriv) :=
+  C01_replicas_agree_inv stH stH' ePriv ginvH.inv holdsH equivH
+example : ∃ st1' out', applyEntry stH' ePriv = .ok (st1', out') ∧ stP ≈ st1' ∧ OutsEq outP out' ∧
+    HoldsNodup stP ∧ HoldsNodup st1' :=
+  C01_replicas_agree_ok stH stH' stP ePriv outP ginvH holdsH equivH applyP
+example : (entryOut (applyEntry stH ePriv)).map Out.rcpt = [[6, 2]] ∧
+    (entryOut (applyEntry stH' ePriv)).map Out.rcpt = [[2, 6]] := by decide +kernel
+/-- `C01_replicas_agree_fail`: a line that is declined on one replica (by evaluation) is declined on the other -/
+example : ∃ s, applyEntry stH' eDecl = .declined s :=
+  (C01_replicas_agree_fail stH stH' eDecl ginvH holdsH equivH).2.1
+    ⟨_, declined_of (w := "time.ParseDuration on a non-decimal input") (by decide +kernel)⟩
+
+/-- `C01_history`, `C01_history_wf`, `C01_history_states` on the seven entries of `Ex.es1`, which run through
+(`Ex.run1`) and are well-formed (`Ex.wf1`) -/
+example : RRel RunResEquiv (runOut stH es1) (runOut stH' es1) :=
+  C01_history stH stH' es1 ginvH holdsH equivH (wf_of_B wf1).ok
+example : RRel RunResEquiv (runOut stH es1) (runOut stH' es1) :=
+  C01_history_wf stH stH' es1 ginvH holdsH equivH (wf_of_B wf1)
+example : ∃ st1', runEntries stH' es1 = .ok st1' ∧ stEnd ≈ st1' :=
+  C01_history_states stH stH' stEnd es1 ginvH holdsH equivH (wf_of_B wf1).ok (runOk_some run1)
+/-- the other replica at the end: alice and `#d` are gone, the new connection is `eve`, the expired hold was consumed -/
+example : (runOk stH' es1).map (fun st => (AMap.keys st.nicks, AMap.keys st.channels, AMap.keys st.svsholds)) =
+    some (["bob", "chanserv", "eve"], ["#c"], ["mallory"]) := by decide +kernel
 
 end Robust.Props.C01Congr
